@@ -4,7 +4,7 @@
    None = NaN. *)
 From Coq Require Import Arith ZArith QArith Qround Qabs List Bool Lia.
 Import ListNotations.
-From SCK Require Import ProfModel ProfProof.
+From SCK Require Import ProfModel ProfProof ProfGen.
 Local Open Scope nat_scope.
 
 (* --- deriving an ordinal profile from valuations --- *)
@@ -82,3 +82,16 @@ Print Assumptions C18_predicate_rejects_clear_inversions.
 
 (* NOT proved (decided per case by the oracle): the normalised generated values sum to 1 over the row, the
    predicate accepts every generated profile, seed reproducibility (a property of numpy's RNG). *)
+
+(* a generated row sums to one and is accepted by the consistency predicate: for every strict complete row of ranks
+   (sigma = the ranks 1..m in some order) and every draw vector whose (clipped) sum is positive *)
+Theorem C18_generator_sums_to_one : forall (clip : bool) sigma draws, let u := if clip then clip0 draws else draws in
+  (0 < sumq u)%Q -> Permutation.Permutation sigma (seq 1 (length draws)) ->
+  (qsum (map valof (gen_row clip (rank_row sigma) draws)) == 1)%Q.
+Proof. exact gen_sums_to_one. Qed.
+Print Assumptions C18_generator_sums_to_one.
+Theorem C18_predicate_accepts_generated : forall (clip : bool) sigma draws, let u := if clip then clip0 draws else draws in
+  (0 < sumq u)%Q -> Permutation.Permutation sigma (seq 1 (length draws)) ->
+  consistent_row (rank_row sigma) (map valof (gen_row clip (rank_row sigma) draws)) = true.
+Proof. exact generated_is_accepted. Qed.
+Print Assumptions C18_predicate_accepts_generated.
